@@ -721,4 +721,32 @@ theorem enum_value_comment_rejected (name : String) (hn : IsConstantName name) (
         rw [heq]; exact lit_none_of_upper "@" '@' _ rfl (by decide) a _ hup
       simp only [parseStructLine, if_true, e1, e2, e3, bind, Option.bind]
 
+/-! ### near misses of the condition operators -/
+
+/-- a condition whose operator text is none of the four spellings of `CONDITIONAL_OPERATION` (`equals`, `not equals`, `in`,
+    `not in`, each one terminal with exactly one blank inside): rejected in every context -/
+theorem condition_operator_text_rejected (name : String) (hn : IsMemberName name) (t : FieldType) (ht : WFType t)
+    (valueText : Chars) (v : Scalar) (hv : ∀ r, conditionValue (' ' :: (valueText ++ ' ' :: r)) = some (v, ' ' :: r))
+    (opText : Chars) (hop : conditionalOperation opText = none) :
+    LineRejected (name.toList ++ ' ' :: '=' :: ' ' :: (t.render.toList ++ ' ' :: 'i' :: 'f' :: ' ' :: (valueText ++ ' ' :: opText))) := by
+  apply plain_member_tail_rejected name hn t ht _ (follows_blank_type _)
+  have h1 : atEol (' ' :: 'i' :: 'f' :: ' ' :: (valueText ++ ' ' :: opText)) = false := by
+    rw [atEol_skip_blank]; exact atEol_cons _ _ (by decide)
+  simp only [optConditionalEol, h1, conditionalExpression, lit_skip_blank, lit_if, hv, conditionalOperation_skip_blank, hop, bind,
+    Option.bind, Bool.false_eq_true, if_false]
+
+/-- the near misses built from the legal spellings: the blank of `not in` / `not equals` removed, doubled or turned into a tab,
+    another case, a truncated or doubled word; whatever follows -/
+theorem conditionalOperation_near_misses (rest : Chars) :
+    conditionalOperation ("notin".toList ++ rest) = none ∧ conditionalOperation ("notequals".toList ++ rest) = none ∧
+    conditionalOperation ("not  in".toList ++ rest) = none ∧ conditionalOperation ("not  equals".toList ++ rest) = none ∧
+    conditionalOperation ("not\tin".toList ++ rest) = none ∧ conditionalOperation ("not\tequals".toList ++ rest) = none ∧
+    conditionalOperation ("Equals".toList ++ rest) = none ∧ conditionalOperation ("EQUALS".toList ++ rest) = none ∧
+    conditionalOperation ("In".toList ++ rest) = none ∧ conditionalOperation ("IN".toList ++ rest) = none ∧
+    conditionalOperation ("Not in".toList ++ rest) = none ∧ conditionalOperation ("NOT IN".toList ++ rest) = none ∧
+    conditionalOperation ("equal ".toList ++ rest) = none ∧ conditionalOperation ("no in".toList ++ rest) = none ∧
+    conditionalOperation ("notnot in".toList ++ rest) = none := by
+  refine ⟨?_, ?_, ?_, ?_, ?_, ?_, ?_, ?_, ?_, ?_, ?_, ?_, ?_, ?_, ?_⟩ <;>
+    simp [conditionalOperation, skipWs, isWs, litHere, List.isPrefixOf, List.dropWhile]
+
 end SymbolVerif.Cats.Parser
